@@ -79,6 +79,8 @@ def main(argv):
     a = ap.parse_args(argv)
     if a.repo:
         os.environ["VERIF_REPO"] = os.path.abspath(a.repo)
+        if os.path.realpath(a.repo) != os.path.realpath("/repo"):
+            a.no_evidence = True        # evidence files describe runs against /repo itself, never a scratch tree
     if a.replay:
         return do_replay(a.replay)
     if a.tier not in ("quick", "thorough"):
